@@ -83,6 +83,12 @@ Theorem C19_every_job_eventually_runs : forall W Q (σ : nat -> st) (λ : nat ->
   execution W Q σ λ -> (forall n, λ n <> RelCall) -> pre_release (dp (σ 0)) = true -> 1 <= W -> weakly_fair W Q σ λ ->
   forall j n, In j (subm (σ n)) -> exists m, n <= m /\ In j (fin (σ m)).
 Proof. exact GpoolEventually.eventually_finished. Qed.
+(* ... and in every weakly fair execution whatsoever: a job sent while the dispatcher has not accepted a Release finishes, unless a
+   Release is accepted first ("as long as the pool has not been released") *)
+Theorem C19_every_job_runs_unless_released : forall W Q (σ : nat -> st) (λ : nat -> label),
+  execution W Q σ λ -> 1 <= W -> weakly_fair W Q σ λ ->
+  forall j n, pre_release (dp (σ n)) = true -> In j (subm (σ n)) -> exists m, n <= m /\ (In j (fin (σ m)) \/ λ m = RelCall).
+Proof. exact GpoolEventually.eventually_finished_or_released. Qed.
 (* the hypotheses are satisfiable for every W >= 1 and Q: a scheduler that runs the pool to quiescence, then lets a submitter go on *)
 Theorem C19_fair_execution_exists : forall W Q, 1 <= W ->
   execution W Q (sst W Q) (slab W Q) /\ (forall n, slab W Q n <> RelCall) /\ pre_release (dp (sst W Q 0)) = true /\
@@ -160,6 +166,7 @@ Print Assumptions C19_every_schedule_completes.
 Print Assumptions C19_blocked_submit_gets_room.
 Print Assumptions C19_release_returns.
 Print Assumptions C19_every_job_eventually_runs.
+Print Assumptions C19_every_job_runs_unless_released.
 Print Assumptions C19_fair_execution_exists.
 Print Assumptions C19_rank_zero_iff_finished.
 Print Assumptions C19_rank_nonincreasing.
